@@ -17,56 +17,111 @@ theorem liftB_more_iff (e : BErr) : liftB e = .more ↔ e = .insufficient := by 
 theorem area_error_iff (t : BTok) (n : Nat) (e : BErr) :
     t.area n = .error e ↔ t.rest.length < n ∧ e = (if t.expectMore then .insufficient else .truncated) := by
   unfold BTok.area BTok.want
-  by_cases h : t.rest.length < n <;> simp [h, eq_comm]
+  by_cases h : t.rest.length < n
+  · simp only [h, if_true, Except.error.injEq, true_and]; exact eq_comm
+  · simp [h]
 
 theorem area_ok_iff (t : BTok) (n : Nat) (x : Bytes) (t' : BTok) :
     t.area n = .ok (x, t') ↔ ¬ t.rest.length < n ∧ x = t.rest.take n ∧ t' = ⟨t.rest.drop n, t.parsed + n, t.expectMore⟩ := by
   unfold BTok.area BTok.want
-  by_cases h : t.rest.length < n <;> simp [h, eq_comm]
+  by_cases h : t.rest.length < n
+  · simp [h]
+  · simp only [h, if_false, Except.ok.injEq, Prod.mk.injEq, not_false_eq_true, true_and]
+    constructor
+    · rintro ⟨h1, h2⟩; exact ⟨h1.symm, h2.symm⟩
+    · rintro ⟨h1, h2⟩; exact ⟨h1.symm, h2.symm⟩
 
 theorem skip_error_iff (t : BTok) (n : Nat) (e : BErr) :
     t.skip n = .error e ↔ t.rest.length < n ∧ e = (if t.expectMore then .insufficient else .truncated) := by
   unfold BTok.skip BTok.want
-  by_cases h : t.rest.length < n <;> simp [h, eq_comm]
+  by_cases h : t.rest.length < n
+  · simp only [h, if_true, Except.error.injEq, true_and]; exact eq_comm
+  · simp [h]
 
 theorem skip_ok_iff (t : BTok) (n : Nat) (t' : BTok) :
     t.skip n = .ok t' ↔ ¬ t.rest.length < n ∧ t' = ⟨t.rest.drop n, t.parsed + n, t.expectMore⟩ := by
   unfold BTok.skip BTok.want
-  by_cases h : t.rest.length < n <;> simp [h, eq_comm]
+  by_cases h : t.rest.length < n
+  · simp [h]
+  · simp only [h, if_false, Except.ok.injEq, not_false_eq_true, true_and]; exact eq_comm
 
-theorem uint16_error (t : BTok) (e : BErr) (h : t.uint16 = .error e) (he : t.expectMore = false) : e = .truncated := by
-  unfold BTok.uint16 BTok.want at h
-  simp only [he, Bool.false_eq_true, if_false] at h
-  repeat' (split at h)
-  all_goals (simp_all)
+/-- the value `uint16` reads -/
+def peek16 : Bytes → Nat
+  | a :: b :: _ => (a.toNat <<< 8) ||| b.toNat
+  | _ => 0
 
-theorem uint16_ok (t : BTok) (v : Nat) (t' : BTok) (h : t.uint16 = .ok (v, t')) : t'.expectMore = t.expectMore := by
-  unfold BTok.uint16 at h
-  repeat' (split at h)
-  all_goals (simp_all)
+def peek8 : Bytes → Nat
+  | a :: _ => a.toNat
+  | _ => 0
 
-theorem uint8_error (t : BTok) (e : BErr) (h : t.uint8 = .error e) (he : t.expectMore = false) : e = .truncated := by
-  unfold BTok.uint8 BTok.want at h
-  simp only [he, Bool.false_eq_true, if_false] at h
-  repeat' (split at h)
-  all_goals (simp_all)
+theorem uint16_error_iff (t : BTok) (e : BErr) :
+    t.uint16 = .error e ↔ t.rest.length < 2 ∧ e = (if t.expectMore then .insufficient else .truncated) := by
+  obtain ⟨r, p, em⟩ := t
+  unfold BTok.uint16 BTok.want
+  by_cases h : r.length < 2
+  · simp only [h, if_true, Except.error.injEq, true_and]; exact eq_comm
+  · match r, h with
+    | a :: b :: r', _ =>
+      simp only [List.length_cons, show ¬ (r'.length + 1 + 1 < 2) by omega, if_false, false_and]
+      simp
+    | [_], h => simp at h
+    | [], h => simp at h
 
-theorem uint8_ok (t : BTok) (v : Nat) (t' : BTok) (h : t.uint8 = .ok (v, t')) : t'.expectMore = t.expectMore := by
-  unfold BTok.uint8 at h
-  repeat' (split at h)
-  all_goals (simp_all)
+theorem uint16_ok_iff (t : BTok) (v : Nat) (t' : BTok) :
+    t.uint16 = .ok (v, t') ↔ ¬ t.rest.length < 2 ∧ v = peek16 t.rest ∧ t' = ⟨t.rest.drop 2, t.parsed + 2, t.expectMore⟩ := by
+  obtain ⟨r, p, em⟩ := t
+  unfold BTok.uint16 BTok.want
+  by_cases h : r.length < 2
+  · simp [h]
+  · match r, h with
+    | a :: b :: r', _ =>
+      simp only [List.length_cons, show ¬ (r'.length + 1 + 1 < 2) by omega, if_false, Except.ok.injEq, Prod.mk.injEq,
+        not_false_eq_true, true_and, peek16, List.drop_succ_cons, List.drop_zero]
+      constructor
+      · rintro ⟨h1, h2⟩; exact ⟨h1.symm, h2.symm⟩
+      · rintro ⟨h1, h2⟩; exact ⟨h1.symm, h2.symm⟩
+    | [_], h => simp at h
+    | [], h => simp at h
+
+theorem uint8_error_iff (t : BTok) (e : BErr) :
+    t.uint8 = .error e ↔ t.rest.length < 1 ∧ e = (if t.expectMore then .insufficient else .truncated) := by
+  obtain ⟨r, p, em⟩ := t
+  unfold BTok.uint8 BTok.want
+  by_cases h : r.length < 1
+  · simp only [h, if_true, Except.error.injEq, true_and]; exact eq_comm
+  · match r, h with
+    | a :: r', _ =>
+      simp only [List.length_cons, show ¬ (r'.length + 1 < 1) by omega, if_false, false_and]
+      simp
+    | [], h => simp at h
+
+theorem uint8_ok_iff (t : BTok) (v : Nat) (t' : BTok) :
+    t.uint8 = .ok (v, t') ↔ ¬ t.rest.length < 1 ∧ v = peek8 t.rest ∧ t' = ⟨t.rest.drop 1, t.parsed + 1, t.expectMore⟩ := by
+  obtain ⟨r, p, em⟩ := t
+  unfold BTok.uint8 BTok.want
+  by_cases h : r.length < 1
+  · simp [h]
+  · match r, h with
+    | a :: r', _ =>
+      simp only [List.length_cons, show ¬ (r'.length + 1 < 1) by omega, if_false, Except.ok.injEq, Prod.mk.injEq,
+        not_false_eq_true, true_and, peek8, List.drop_succ_cons, List.drop_zero]
+      constructor
+      · rintro ⟨h1, h2⟩; exact ⟨h1.symm, h2.symm⟩
+      · rintro ⟨h1, h2⟩; exact ⟨h1.symm, h2.symm⟩
+    | [], h => simp at h
 
 theorem pstring16_error (t : BTok) (e : BErr) (h : t.pstring16 = .error e) (he : t.expectMore = false) : e = .truncated := by
   unfold BTok.pstring16 at h
   split at h
   · rename_i e' heq
     cases h
-    exact uint16_error t _ heq he
+    rw [uint16_error_iff] at heq
+    rw [heq.2, he]; rfl
   · rename_i len t1 heq
-    have hem := uint16_ok t _ _ heq
+    rw [uint16_ok_iff] at heq
     split at h
     · rw [area_error_iff] at h
-      rw [h.2, hem, he]; rfl
+      rw [h.2, heq.2.2, he]; rfl
     · cases h
 
 theorem pstring16_ok (t : BTok) (x : Bytes) (t' : BTok) (h : t.pstring16 = .ok (x, t')) : t'.expectMore = t.expectMore := by
@@ -74,11 +129,11 @@ theorem pstring16_ok (t : BTok) (x : Bytes) (t' : BTok) (h : t.pstring16 = .ok (
   split at h
   · cases h
   · rename_i len t1 heq
-    have hem := uint16_ok t _ _ heq
+    rw [uint16_ok_iff] at heq
     split at h
     · rw [area_ok_iff] at h
-      rw [h.2.2]; exact hem
-    · cases h; exact hem
+      rw [h.2.2, heq.2.2]
+    · cases h; rw [heq.2.2]
 
 /-- a failing read of a tokenizer that does not expect more data is a rejection, never "need more" -/
 theorem parseAddresses_error {family : Nat} {t : BTok} {h : Header} {e : Stop} (he : t.expectMore = false)
@@ -91,15 +146,7 @@ theorem parseAddresses_error {family : Nat} {t : BTok} {h : Header} {e : Stop} (
   all_goals (
     simp only [Except.error.injEq, liftB_more_iff] at hp
     subst hp
-    first
-    | (simp_all [area_error_iff, area_ok_iff, skip_error_iff, skip_ok_iff]; done)
-    | (rename_i heq
-       have := uint16_error _ _ heq (by simp_all [area_error_iff, area_ok_iff, skip_error_iff, skip_ok_iff, uint16_ok])
-       cases this)
-    | (rename_i heq1 _ _ _ heq
-       have hem := uint16_ok _ _ _ heq1
-       have := uint16_error _ _ heq (by simp_all [area_error_iff, area_ok_iff, skip_error_iff, skip_ok_iff])
-       cases this))
+    simp_all [area_error_iff, area_ok_iff, skip_error_iff, uint16_error_iff, uint16_ok_iff])
 
 theorem parseAddresses_em {family : Nat} {t t' : BTok} {h h1 : Header} (hp : parseAddresses family t h = .ok (h1, t')) :
     t'.expectMore = t.expectMore := by
@@ -109,12 +156,7 @@ theorem parseAddresses_em {family : Nat} {t t' : BTok} {h h1 : Header} (hp : par
   all_goals (
     simp only [Except.ok.injEq, Prod.mk.injEq] at hp
     obtain ⟨-, rfl⟩ := hp
-    first
-    | (simp_all [area_ok_iff, skip_ok_iff]; done)
-    | (rename_i heq1 _ _ _ heq2
-       have e1 := uint16_ok _ _ _ heq1
-       have e2 := uint16_ok _ _ _ heq2
-       simp_all [area_ok_iff, skip_ok_iff]))
+    simp_all [area_ok_iff, skip_ok_iff, uint16_ok_iff])
 
 theorem parseTLVs_ne_more (fuel : Nat) (t : BTok) (he : t.expectMore = false) (acc : List Tlv) :
     parseTLVs fuel t acc ≠ .error .more := by
@@ -129,10 +171,11 @@ theorem parseTLVs_ne_more (fuel : Nat) (t : BTok) (he : t.expectMore = false) (a
       · rename_i e heq
         simp only [Except.error.injEq, liftB_more_iff] at hc
         subst hc
-        have := uint8_error _ _ heq he
-        cases this
+        rw [uint8_error_iff, he] at heq
+        simp at heq
       · rename_i ty t1 heq
-        have hem1 : t1.expectMore = false := by rw [uint8_ok _ _ _ heq, he]
+        have hem1 : t1.expectMore = false := by
+          rw [uint8_ok_iff] at heq; rw [heq.2.2]; exact he
         split at hc
         · rename_i e heq2
           simp only [Except.error.injEq, liftB_more_iff] at hc
@@ -146,59 +189,117 @@ theorem parseTLVs_ne_more (fuel : Nat) (t : BTok) (he : t.expectMore = false) (a
 theorem body_ne_more (command family proto : Nat) (raw : Bytes) : body command family proto raw ≠ .error .more := by
   intro hc
   unfold body at hc
-  simp only at hc
-  repeat' (split at hc)
+  repeat' (first | (split at hc) | (simp only at hc))
   all_goals (try (simp at hc; done))
-  · cases hc; exact parseAddresses_error (by simp [BTok.mk']) ‹_› rfl
+  · cases hc; exact parseAddresses_error (t := BTok.mk' raw) rfl ‹_› rfl
   · cases hc
     rename_i heq _ _ heq2
     have hem := parseAddresses_em heq
-    exact parseTLVs_ne_more _ _ (by simpa [BTok.mk'] using hem) _ heq2
+    exact parseTLVs_ne_more _ _ (hem.trans rfl) _ heq2
+
+theorem len16_lt (l1 l2 : UInt8) : len16 l1 l2 < 65536 := by
+  unfold len16
+  have h1 := l1.toNat_lt
+  have h2 := l2.toNat_lt
+  rw [← Nat.shiftLeft_add_eq_or_of_lt (by omega), Nat.shiftLeft_eq]
+  omega
 
 /-- `Two::Parse` asks for more only while the frame (4 octets + length field) is incomplete -/
 theorem parse_more {buf : Bytes} (h : parse buf = .error .more) : buf.length < 4 + 65536 := by
-  rw [parse_eq] at h
-  repeat' (split at h)
-  all_goals (try (simp at h; done))
-  all_goals (try (simp only [List.length_cons, List.length_nil]; omega))
-  · rename_i l1 l2 r3 hlt
-    have : len16 l1 l2 < 65536 := by
-      unfold len16
-      have h1 := l1.toNat_lt
-      have h2 := l2.toNat_lt
-      rw [← Nat.shiftLeft_add_eq_or_of_lt (by omega), Nat.shiftLeft_eq]
-      omega
-    simp only [List.length_cons]; omega
-  · cases h; exact absurd ‹_› (body_ne_more _ _ _ _)
+  by_cases hl : buf.length < 4 + 65536
+  · exact hl
+  · exfalso
+    match buf, hl with
+    | vc :: fp :: l1 :: l2 :: r3, hl =>
+      rw [parse_eq] at h
+      simp only at h
+      have hlen : ¬ r3.length < len16 l1 l2 := by
+        have := len16_lt l1 l2
+        simp only [List.length_cons] at hl
+        omega
+      simp only [hlen, if_false] at h
+      repeat' (split at h)
+      all_goals (try (simp at h; done))
+      all_goals (cases h; exact absurd ‹_› (body_ne_more _ _ _ _))
+    | [_, _, _], hl => simp at hl
+    | [_, _], hl => simp at hl
+    | [_], hl => simp at hl
+    | [], hl => simp at hl
 
 end Two
 
 namespace One
 
+theorem extractIp_ne_more (ipOf : IpOf) (t : Tok) : extractIp ipOf t ≠ .error .more := by
+  unfold extractIp
+  repeat' split
+  all_goals simp
+
+theorem extractPort_ne_more (t : Tok) (ts : Bool) : extractPort t ts ≠ .error .more := by
+  rw [extractPort_eq]
+  repeat' split
+  all_goals simp
+
+theorem parseAddresses_ne_more (ipOf : IpOf) (t : Tok) (h : Header) : parseAddresses ipOf t h ≠ .error .more := by
+  intro hc
+  unfold parseAddresses at hc
+  repeat' (first | (split at hc) | (simp only at hc))
+  all_goals (try cases hc)
+  all_goals
+    first
+    | exact extractIp_ne_more _ _ ‹_›
+    | exact extractPort_ne_more _ _ ‹_›
+
 theorem interior_ne_more (ipOf : IpOf) (inter : Bytes) : interior ipOf inter ≠ .error .more := by
   intro hc
-  unfold interior parseAddresses extractIp extractPort at hc
+  unfold interior at hc
   simp only at hc
-  repeat' (first | (split at hc) | (simp only at hc))
-  all_goals (try (simp at hc; done))
+  repeat' (split at hc)
+  all_goals (try cases hc)
+  all_goals exact parseAddresses_ne_more _ _ _ ‹_›
 
 /-- `One::Parse` asks for more only while no CRLF was seen within the first 107 - 5 octets -/
 theorem parse_more {ipOf : IpOf} {buf : Bytes} (h : parse ipOf buf = .error .more) : buf.length ≤ maxInteriorLength + 1 := by
   unfold parse at h
-  rw [line_eq] at h
   have hrl := run_length_le buf
-  repeat' (split at h)
-  all_goals (try (simp at h; done))
-  all_goals (try (cases h; exact absurd ‹_› (interior_ne_more _ _)))
-  · subst_vars; simp
-  · rename_i hd
-    have := congrArg List.length hd
-    simp only [List.length_drop, List.length_nil] at this
-    omega
-  · rename_i hd _
-    have := congrArg List.length hd
-    simp only [List.length_drop, List.length_cons, List.length_nil] at this
-    omega
+  cases hl : line (Tok.ofBytes buf) with
+  | ok p =>
+    rw [hl] at h
+    obtain ⟨inter, t3⟩ := p
+    simp only at h
+    split at h
+    · cases h; exact absurd ‹_› (interior_ne_more _ _)
+    · cases h
+  | error e =>
+    rw [hl] at h
+    simp only [Except.error.injEq] at h
+    subst h
+    rw [line_eq] at hl
+    by_cases hr : run buf = []
+    · simp only [hr, if_true] at hl
+      by_cases hb : buf = []
+      · subst hb; simp
+      · simp [hb] at hl
+    · simp only [hr, if_false] at hl
+      cases hd : buf.drop (run buf).length with
+      | nil =>
+        have := congrArg List.length hd
+        simp only [List.length_drop, List.length_nil] at this
+        omega
+      | cons c rest =>
+        rw [hd] at hl
+        simp only at hl
+        by_cases hc : c = 13
+        · simp only [hc, if_true] at hl
+          cases rest with
+          | nil =>
+            have := congrArg List.length hd
+            simp only [List.length_drop, List.length_cons, List.length_nil] at this
+            omega
+          | cons d rest2 =>
+            simp only at hl
+            by_cases hd2 : d = 10 <;> simp [hd2] at hl
+        · simp [hc] at hl
 
 end One
 
